@@ -183,6 +183,27 @@ def run(c):
                     h["hdr"]["round"], seed, sites, h["hdr"]["cfg"]),
                     replay_obj=dict(kind="stress", seed=seed, rounds=rounds, round=h["hdr"]["round"], blocked=sites),
                     signature=sig)
+            # heavy rounds: search-free monitor (exactly-once, size bounds, zero at end)
+            heavy_rs = [r for g in groups.values() for r in g if r["heavy"] and not r["hang"]]
+            if heavy_rs:
+                hp = os.path.join(c.work, "heavy_%d.ndjson" % seed)
+                with open(hp, "w") as fh:
+                    for r in heavy_rs:
+                        fh.writelines(r["lines"])
+                hr = c.tlc(SPEC, "SQHeavy", cfg="SQHeavy.cfg", workers=1, files={"observed.ndjson": hp}, timeout=1800, count=False,
+                           label="heavy_s%d" % seed, heap="12g")
+                if not hr.ok:
+                    raise vlib.Inconclusive("heavy-round monitor failed: %s\n%s" % (hr.error, hr.out[-2000:]))
+                seen_clause = set()
+                for v in hr.printed:
+                    key = v["clause"].split(":")[0]
+                    if key in seen_clause:
+                        continue
+                    seen_clause.add(key)
+                    hdr = next(r["hdr"] for r in heavy_rs if r["hdr"]["round"] == v["round"])
+                    c.violation("heavy round %d (seed %d): %s: %s; cfg=%s" % (v["round"], seed, v["clause"], str(v["detail"])[:200], hdr["cfg"]),
+                                replay_obj=dict(kind="stress", seed=seed, rounds=rounds, round=v["round"], clause=v["clause"]))
+                rounds_total += len(heavy_rs)
             jobs = []
             for (cap, pers), rs in sorted(groups.items()):
                 rs = [r for r in rs if not r["heavy"] and not r["hang"]]
